@@ -239,22 +239,20 @@ theorem error_meaning_shutdown_task {c c' : Core} (t : TEff c c') (rid : Rid) (s
 
 /-- `error_meaning_partial` for `shutdown`.  A script step by itself completes a request with
     `shutdown` only when the task is being dropped (`abort`) or is already gone, EXCEPT in the
-    try-send style of `FfiChannel` while the task is alive: a full queue drops the command, and
-    `read_holding_registers` / `read_input_registers` with an over-limit count drop the promise they
-    created before validating.  (Together with `error_meaning_shutdown_task` this covers every
-    source of `shutdown`.)
+    try-send style of `FfiChannel` while the task is alive: a full queue drops the command
+    (finding F10, open).  (Together with `error_meaning_shutdown_task` this covers every source of
+    `shutdown`.)
 
     Full statement that does NOT hold for the code: "`shutdown` only when the task is gone or the
-    queue is closed".  The two exclusions are the last disjunct; `shutdown_while_alive` below is a
-    concrete witness. -/
+    queue is closed".  The exclusion is the last disjunct; the `example` below is a concrete
+    witness. -/
 theorem error_meaning_shutdown_partial {σ : Type} (s : State σ) (st : Step) (rid : Rid)
     (sty : Style) (time : Nat)
     (h : LogEntry.done rid sty .shutdown time ∈ (applyStep s st).log) :
     LogEntry.done rid sty .shutdown time ∈ s.log
       ∨ st = .abort
       ∨ s.alive = false
-      ∨ ∃ hd r, st = .submit .T hd r
-          ∧ (s.cap ≤ s.queue.length ∨ ∃ e, precheck false r.req = .invalid e false) := by
+      ∨ ∃ hd r, st = .submit .T hd r ∧ s.cap ≤ s.queue.length := by
   cases st with
   | abort => exact Or.inr (Or.inl rfl)
   | submit op hd r =>
@@ -265,12 +263,7 @@ theorem error_meaning_shutdown_partial {σ : Type} (s : State σ) (st : Step) (r
       · simp [emit] at h; exact Or.inl h
       · rename_i e bits hpre
         split at h
-        · split at h
-          · simp [emit] at h; exact Or.inl h
-          · rename_i hb
-            have hb' : bits = false := by simpa using hb
-            subst hb'
-            exact Or.inr (Or.inr (Or.inr ⟨hd, r, rfl, Or.inr ⟨e, by simpa using hpre⟩⟩))
+        · simp [complete, emit, accept] at h; exact Or.inl h
         · simp [complete, emit, accept] at h; exact Or.inl h
       · simp only [] at h
         split at h
@@ -279,7 +272,7 @@ theorem error_meaning_shutdown_partial {σ : Type} (s : State σ) (st : Step) (r
             exact Or.inr (Or.inr (Or.inl (by simpa [accept] using ha)))
           · split at h
             · rename_i hfull
-              exact Or.inr (Or.inr (Or.inr ⟨hd, r, rfl, Or.inl (by simpa [accept] using hfull)⟩))
+              exact Or.inr (Or.inr (Or.inr ⟨hd, r, rfl, by simpa [accept] using hfull⟩))
             · simp [enqueue, accept] at h; exact Or.inl h
         · split at h
           · rename_i ha
@@ -337,14 +330,15 @@ example :
     let s := runState mbap s1 [.submit .T 0 (rc "a" .trySend 10), .submit .T 0 (rc "b" .trySend 10)]
     s.alive = true ∧ s.log = [.sub "b" .full, .done "b" .trySend .shutdown 0] := by decide
 
-/-- the other exclusion (finding F9): `FfiChannel::read_holding_registers` with 126 registers
-    completes the callback with `shutdown`, whereas `read_coils` with 2001 coils never calls it -/
+/-- finding F9b (repaired): `FfiChannel::read_holding_registers` with 126 registers and
+    `read_coils` with 2001 coils both complete the callback with the range error they return -/
 example :
     (runState mbap s16 [.submit .T 0 ⟨"a", .trySend, 1, 10, .readHoldingRegisters 0 126⟩,
                         .submit .T 0 ⟨"b", .trySend, 1, 10, .readCoils 0 2001⟩]).log
       = [.sub "b" (.badReq (.badRange .countTooLargeForType)),
+         .done "b" .trySend (.badReq (.badRange .countTooLargeForType)) 0,
          .sub "a" (.badReq (.badRange .countTooLargeForType)),
-         .done "a" .trySend .shutdown 0] := by decide
+         .done "a" .trySend (.badReq (.badRange .countTooLargeForType)) 0] := by decide
 
 /-- a run in which every kind of accounting occurs: a reply, a timeout, `noconn`, a request still
     queued and one in flight -/
